@@ -17,6 +17,15 @@ def binop(ex, op, a, b, fr, inplace=False, node=None):
         return E.binop(ex, op, a, b)
     if op == "BitAnd" and ks <= {"elembool"}:
         return Val(Ty("elembool"), z3.And(a.t, b.t))
+    if "oarr" in ks and ks <= {"oarr", "fl", "int", "real"}:
+        # opaque array arithmetic: a deterministic function of the operands (contents not modelled)
+        code = {"Add": 1, "Sub": 2, "Mult": 3, "Div": 4, "Pow": 5}.get(op)
+        if code is None:
+            raise Unsupported(f"opaque array operator {op}")
+        x, y = (v.t if v.ty.kind == "oarr" else smt.oarr_of_fl(ex.coerce(v, "fl").t) for v in (a, b))
+        r = smt.oarr_bin(z3.IntVal(code), x, y)
+        ex.assume(smt.oarr_rows(r) >= 0)
+        return Val(Ty("oarr"), r)
     raise Unsupported(f"array arithmetic {op} on {a.ty}, {b.ty}")
 
 
@@ -37,6 +46,13 @@ def subscript(ex, v, sl, fr, node):
             if which in (0, 1):
                 return Val(Ty("elem"), v.meta["lower" if which == 0 else "upper"])
         raise Unsupported("bounds subscript other than [:, 0] / [:, 1]")
+    if v.ty.kind == "arr" and v.ty.cls == "B":
+        # bounds[:, k]: a column of the (immutable) bounds array, as an opaque array value
+        if isinstance(sl, ast.Tuple) and len(sl.elts) == 2 and isinstance(sl.elts[0], ast.Slice) and isinstance(sl.elts[1], ast.Constant) \
+                and sl.elts[0].lower is None and sl.elts[0].upper is None and sl.elts[1].value in (0, 1):
+            r = smt.oarr_col(v.t, z3.IntVal(sl.elts[1].value))
+            ex.assume(smt.oarr_rows(r) >= 0)
+            return Val(Ty("oarr"), r)
     raise Unsupported(f"array subscript on {v.ty}")
 
 
@@ -66,10 +82,19 @@ def call(ex, name, fv_, args, kwargs, fr, node):
 
 
 def length(ex, v):
+    if v.ty.kind == "oarr":
+        return vint(smt.oarr_rows(v.t))
+    if v.ty.kind == "arr":
+        return vint(ex.hmap("$alen", INT)[v.t])
     raise Unsupported("len of array")
 
 
 def rows_as_list(ex, v, fr):
+    if v.ty.kind == "oarr":
+        from .models import vlist
+        j = z3.Int("j")
+        ex.assume(smt.oarr_rows(v.t) >= 0)
+        return vlist(Ty("g"), smt.oarr_rows(v.t), [z3.Lambda([j], smt.oarr_row(v.t, j))])
     raise Unsupported("iteration over array")
 
 
